@@ -297,3 +297,14 @@ def describe_path(p: Path, n: int = 60) -> List[str]:
 
 def fmt(v) -> str:
     return repr(v)
+
+
+def strip_versions(k):
+    """Structure of an access path without the havoc version counters."""
+    if isinstance(k, tuple):
+        if k and k[0] in ('attr', 'sub') and len(k) == 4:
+            return (k[0], strip_versions(k[1]), strip_versions(k[2]))
+        return tuple(strip_versions(x) for x in k)
+    if isinstance(k, frozenset):
+        return frozenset(strip_versions(x) for x in k)
+    return k
